@@ -408,8 +408,9 @@ pub struct XlsbBook {
     pub vba: Option<Vec<u8>>,
     /// extra zip parts (name, bytes)
     pub extra_parts: Vec<(String, Vec<u8>)>,
-    /// extra records `(id, payload)` written between BrtWbProp and BrtBeginBundleShs, framed minimally
-    /// (C16: BrtBookView and friends; `read_workbook` scans the payload of records it does not know as record ids)
+    /// extra records `(id, payload)` written between BrtWbProp and BrtBeginBundleShs, framed like every other record
+    /// (C16: BrtBookView and friends; before fix 889c07c `read_workbook` scanned the payload of records it does not
+    /// know as record ids)
     pub workbook_pre: Vec<(u16, Vec<u8>)>,
 }
 
@@ -454,7 +455,7 @@ impl XlsbBook {
         p.extend_from_slice(&wide_str(""));
         fr.rec(&mut o, 0x0099, &p); // BrtWbProp
         for (id, p) in &self.workbook_pre {
-            fr.rec_min(&mut o, *id, p);
+            fr.rec(&mut o, *id, p);
         }
         fr.rec_min(&mut o, 0x008F, &[]); // BrtBeginBundleShs
         for (i, s) in self.sheets.iter().enumerate() {
